@@ -11,6 +11,8 @@ INNER = {'arith_c', 'unary_num', 'concat_c', 'str_un', 'not', 'zip_arith', 'seto
 
 
 def main(ck):
+    if ck.replay_path:
+        return CC.replay(ck)
     pr = ck.proof('C02')
     q = ck.quick()
     res = []
